@@ -125,12 +125,13 @@ func runC(pl CPlan) (res vfx.Result) {
 					busy[e.Node] = true
 					mu.Unlock()
 					wg.Add(1)
-					go func(i int, nd *cluster.Node) {
+					m := nd.M // read here, on the goroutine that owns the bookkeeping (race detector builds)
+					go func(i int) {
 						defer wg.Done()
 						for try := 0; try < 5; try++ {
 							k := (i + 1 + try) % n
-							if k != i && nodes[k].Running {
-								if _, err := nd.M.Join([]string{nodes[k].Addr()}); err == nil {
+							if k != i { // whether that node is up is the main loop's knowledge; a join towards a node that is down simply fails
+								if _, err := m.Join([]string{nodes[k].Addr()}); err == nil {
 									break
 								}
 							}
@@ -139,7 +140,7 @@ func runC(pl CPlan) (res vfx.Result) {
 						mu.Lock()
 						busy[i] = false
 						mu.Unlock()
-					}(e.Node, nd)
+					}(e.Node)
 				}
 			case "leave":
 				if nd.Running && !nd.Left {
@@ -149,25 +150,27 @@ func runC(pl CPlan) (res vfx.Result) {
 					busy[e.Node] = true
 					mu.Unlock()
 					wg.Add(1)
-					go func(i int, nd *cluster.Node) {
+					m := nd.M // read here: a later restart of the node replaces the field
+					go func(i int) {
 						defer wg.Done()
-						_ = nd.M.Leave(2 * time.Second)
+						_ = m.Leave(2 * time.Second)
 						time.Sleep(300 * time.Millisecond)
-						_ = nd.M.Shutdown()
+						_ = m.Shutdown()
 						mu.Lock()
 						finished = append(finished, i)
 						mu.Unlock()
-					}(e.Node, nd)
+					}(e.Node)
 				}
 			case "update":
 				if nd.Running && !nd.Left {
 					nd.Rec.SetMeta([]byte(fmt.Sprintf("m-%d-%d", e.Node, e.AtMs)))
 					labels["update"] = true
 					wg.Add(1)
-					go func(nd *cluster.Node) {
+					m := nd.M // as above
+					go func() {
 						defer wg.Done()
-						_ = nd.M.UpdateNode(time.Second)
-					}(nd)
+						_ = m.UpdateNode(time.Second)
+					}()
 				}
 			}
 		}
